@@ -9,7 +9,7 @@ PIPELINED = VARIANTS[3:]
 MULTI = VARIANTS[5:]
 FUEL = 200000
 FEATURES = ['cold-store-then-load', 'store-then-load', 'store-store-line', 'load-then-store', 'stores', 'loads', 'gt16-lines']
-PROFILES = ['alu', 'ssa', 'hazard', 'branch', 'loops', 'shadow', 'ldslow', 'ldonly', 'disj', 'touched', 'mem', 'stld', 'tail', 'mixed', 'err']
+PROFILES = ['alu', 'ssa', 'hazard', 'branch', 'loops', 'shadow', 'ldslow', 'ldonly', 'disj', 'touched', 'mem', 'evict', 'stld', 'tail', 'mixed', 'err']
 
 
 def pars_of(variant):
@@ -23,7 +23,7 @@ def parse_spec(line):
     t = line.split(' ')
     if t[0] == 'ok':
         d = dict(x.split('=', 1) for x in t[1:])
-        return ('ok', int(d['steps']), d.get('r', ''), d.get('m', ''), d.get('acc', ''))
+        return ('ok', int(d['steps']), d.get('r', ''), d.get('m', ''), d.get('acc', ''), d.get('path', ''))
     if t[0] == 'err':
         return ('err:' + t[1], int(t[2].split('=')[1]), '', '')
     return (t[0], 0, '', '')
@@ -41,6 +41,8 @@ def parse_impl(line):
         return ('err:' + t[1], 0, '', '', 0)
     if t[0] == 'CRASH':
         return ('crash', 0, '', '', 0)
+    if t[0] == 'hang':
+        return ('hang', 0, '', '', 0)
     return (t[0], 0, ' '.join(t[1:]), '', 0)
 
 
